@@ -8,10 +8,13 @@ import HcipyVerif.Model.Interp
 lin-sep new|old ext|fill <sep> <vals> <pts>     sep = [x-axis];[y-axis];…  pts = [x,y];[x,y];…
 near-sep new|old <sep> <vals> <pts>             -> ok [v,nan,…]   (nan = fill value / outside)
 lin-tri <[ax,ay,bx,by,cx,cy]> <[va,vb,vc]> <[px,py]>   -> ok v | ok nan (degenerate simplex)
-near-uns <pts> <vals> <evalpts>                 -> ok [values of all minimisers];[…]
+near-uns <pts> <vals> <evalpts>                 -> ok [values of all minimisers];[…] first [nearestUnstructured values]
 bin sum|mean <s> <dims> <vals>                  -> ok [..] | err value
+bins sum|mean <ss> <dims> <vals>                per-axis factors `ss` (same order as dims, slowest first)
+binpix <ss> <dims> <vals>                       the closed-form index map `boxSums` at every coarse pixel (= bins sum)
 binw <s> <dims> <vals> <weights>                weighted mean (non-regular grids)
-bint <s> <dims> <ncomp> <vals>                  tensor field, statistic sum
+bint <s> <dims> <ncomp> <vals>                  tensor field, statistic sum (component-wise `binTensor`)
+bintl sum|mean <ss> <dims> <tshape> <vals>      tensor field as the code reshapes it (`binTensorL`: tensor axes in front, unbinned)
 ss mean|sum <c0> <c> <q> <sep> <ns>             evaluate_supersampled of c0+Σc·x+Σq·x²
 ```
 -/
@@ -67,7 +70,8 @@ def step (st : St) : List String → St × String
     match parseRatLists? pts, parseRatList? vals, parseRatLists? ev with
     | some pts, some vals, some ev =>
       if pts.length ≠ vals.length || pts.isEmpty then (st, "err value") else
-      (st, "ok " ++ showRatLists (ev.map fun p => (minimisers pts p).map fun i => vals.getD i 0))
+      (st, "ok " ++ showRatLists (ev.map fun p => (minimisers pts p).map fun i => vals.getD i 0)
+        ++ " first " ++ showOpts (ev.map (nearestUnstructured pts vals)))
     | _, _, _ => (st, "bad-op")
   | ["bin", stat, s, dims, vals] =>
     match parseNat? s, parseNatList? dims, parseRatList? vals with
@@ -75,9 +79,30 @@ def step (st : St) : List String → St × String
       if s = 0 then (st, "bad-op") else
       if vals.length ≠ fineSize s dims then (st, "err value") else
       match stat with
-      | "sum" => (st, "ok " ++ showRatList (binND s dims vals))
+      | "sum" =>
+        match binSum? s dims vals with
+        | some r => (st, "ok " ++ showRatList r)
+        | none => (st, "err value")
       | "mean" => (st, "ok " ++ showRatList (binMean s dims vals))
       | _ => (st, "bad-op")
+    | _, _, _ => (st, "bad-op")
+  | ["bins", stat, ss, dims, vals] =>
+    match parseNatList? ss, parseNatList? dims, parseRatList? vals with
+    | some ss, some dims, some vals =>
+      if ss.any (· = 0) || ss.length ≠ dims.length then (st, "bad-op") else
+      if vals.length ≠ fineSizes ss dims then (st, "err value") else
+      match stat with
+      | "sum" => (st, "ok " ++ showRatList (binNDs ss dims vals))
+      | "mean" => (st, "ok " ++ showRatList (binMeans ss dims vals))
+      | _ => (st, "bad-op")
+    | _, _, _ => (st, "bad-op")
+  | ["binpix", ss, dims, vals] =>
+    match parseNatList? ss, parseNatList? dims, parseRatList? vals with
+    | some ss, some dims, some vals =>
+      if ss.any (· = 0) || ss.length ≠ dims.length then (st, "bad-op") else
+      if vals.length ≠ fineSizes ss dims then (st, "err value") else
+      (st, "ok " ++ showRatList ((tensorPts (dims.map List.range)).map fun c =>
+        boxSums dims ss c (fun f => vals.getD f 0)))
     | _, _, _ => (st, "bad-op")
   | ["binw", s, dims, vals, w] =>
     match parseNat? s, parseNatList? dims, parseRatList? vals, parseRatList? w with
@@ -93,6 +118,17 @@ def step (st : St) : List String → St × String
       match binTensor? s dims ncomp vals with
       | some r => (st, "ok " ++ showRatList r)
       | none => (st, "err value")
+    | _, _, _, _ => (st, "bad-op")
+  | ["bintl", stat, ss, dims, tshape, vals] =>
+    match parseNatList? ss, parseNatList? dims, parseNatList? tshape, parseRatList? vals with
+    | some ss, some dims, some tshape, some vals =>
+      if ss.any (· = 0) || ss.length ≠ dims.length then (st, "bad-op") else
+      if vals.length ≠ size tshape * fineSizes ss dims then (st, "err value") else
+      let r := binTensorL ss dims tshape vals
+      match stat with
+      | "sum" => (st, "ok " ++ showRatList r)
+      | "mean" => (st, "ok " ++ showRatList (r.map (· / ((ss.foldr (· * ·) 1 : Nat) : Rat))))
+      | _ => (st, "bad-op")
     | _, _, _, _ => (st, "bad-op")
   | ["ss", stat, c0, c, q, sep, ns] =>
     match parseRat? c0, parseRatList? c, parseRatList? q, parseRatLists? sep, parseNatList? ns with
